@@ -194,10 +194,19 @@ def hostile_monoidal(rng):
     scan = [rng.choice(ATOMS) for _ in range(width)]
     dom = list(scan)
     boxes, offsets = [], []
+    # "any width": now and then the first box fans out into 11-14 wires (port
+    # indices with two digits), followed by a few boxes on those wires
+    fan_out = depth >= 2 and rng.random() < .08
+    if fan_out:
+        depth = min(depth, 5)
     for k in range(depth):
         w = len(scan)
         shape = pick_shape(rng, theme, w, k)
         n_in, n_out, off = place(rng, shape, w)
+        if fan_out and k == 0:
+            n_in = rng.randint(0, min(w, 2))
+            n_out = rng.randint(11, 14)
+            off = rng.randint(0, w - n_in)
         new = [rng.choice(ATOMS) for _ in range(n_out)]
         name = rng.choice(kits.LETTERS)
         box_dom, box_cod = m.Ty(*scan[off:off + n_in]), m.Ty(*new)
@@ -216,7 +225,7 @@ def hostile_monoidal(rng):
             diagram = diagram >> m.Id(cur[:off]) @ box\
                 @ m.Id(cur[off + len(box.dom):])
             cur = diagram.cod
-    return diagram, theme
+    return diagram, theme + ("+fan-out" if fan_out else "")
 
 
 def pick_shape(rng, theme, w, k):
